@@ -104,6 +104,69 @@ def norm(obs: dict) -> dict:
     return o
 
 
+OPEN_CAPS = {'plain': [], 'rr2': [b'\x02\x00'], 'rr128': [b'\x80\x00'], 'both': [b'\x02\x00', b'\x80\x00'], 'rev': [b'\x80\x00', b'\x02\x00'],
+             'ms68': [b'\x44\x01\x00'], 'ms131': [b'\x83\x01\x00']}
+
+
+def open_body(kind: str) -> bytes:
+    """an OPEN (RFC 4271 4.2) of AS 65001, hold time 180, identifier 1.2.3.4: the 4-byte AS capability, then one optional parameter
+    (type 2) per capability of the kind, in the order of ExaOpenHist!Codes"""
+    params = b''.join(bytes([2, len(c)]) + c for c in [b'\x41\x04' + (65001).to_bytes(4, 'big')] + OPEN_CAPS[kind])
+    return bytes([4]) + (65001).to_bytes(2, 'big') + (180).to_bytes(2, 'big') + bytes([1, 2, 3, 4, len(params)]) + params
+
+
+def rendering(op) -> list:
+    """[code, variant] for the capabilities ExaOpenHist speaks of, as the API encoder renders them now"""
+    out = []
+    for code, cap in op.capabilities.items():
+        if int(code) in (2, 128, 68, 131):
+            out.append([int(code), json.loads(cap.json())['variant']])
+    return sorted(out)
+
+
+def open_histories(ck: Check, tier: str) -> None:
+    """ExaOpenHist: histories of OPEN messages; every decoded OPEN renders as its own bytes say, at once and after everything else"""
+    from exabgp.bgp.message.open import Open
+    from exabgp.bgp.message.open.capability.negotiated import Negotiated
+
+    maxlen = 3 if tier == 'quick' else 5
+    cfg = open(os.path.join(tlc.SPEC, 'MC_ExaOpenHist.cfg')).read().replace('MaxLen = 3', f'MaxLen = {maxlen}')
+    res, states = tlc.dump_states('ExaOpenHist', '', 'c19open', ['hist'], cfg_text=cfg, workers=4)
+    ck.tlc(res, f'ExaOpenHist: all histories of <= {maxlen} OPENs over 7 kinds; invariant HistoryFree (identifier owned by the decoded object)')
+    if not res.ok:
+        raise tlc.TLCError('ExaOpenHist: ' + res.out[-1500:])
+    broken = tlc.run('ExaOpenHist', os.path.join(tlc.SPEC, 'MC_ExaOpenHist_asis.cfg'), 'c19openasis', workers=4)
+    ck.tlc(broken, 'ExaOpenHist with SharedId = TRUE (identifier kept on the class: must be rejected)')
+    if broken.violated_invariant != 'HistoryFree':
+        raise tlc.TLCError('ExaOpenHist with a class-level identifier should violate HistoryFree (vacuity guard): ' + broken.out[-800:])
+    # Meaning(kind), from the specification
+    mod = os.path.join(tlc.WORK, 'TableExaOpenHist.tla')
+    open(mod, 'w').write('---- MODULE TableExaOpenHist ----\nEXTENDS ExaOpenHist\nVARIABLES t, z\nTSpec == Init /\\ t = [k \\in Kinds |-> Meaning(k)] /\\ z = 0 /\\ [][UNCHANGED <<hist, classId, t, z>>]_<<hist, classId, t, z>>\n====\n')
+    _, tab = tlc.dump_states(mod, '', 'c19opentab', ['t'], cfg_text='SPECIFICATION TSpec\nCONSTANTS\n  MaxLen = 1\n  SharedId = FALSE\nCHECK_DEADLOCK FALSE\n', workers=1)
+    meaning = {k: sorted([int(c), v] for c, v in pairs['__set__']) for k, pairs in tab[0]['t'].items()}
+    hists = sorted([list(st['hist']) for st in states if st['hist']])
+    n = 0
+    for h in hists:
+        decoded = []
+        for step, kind in enumerate(h):
+            op = Open.unpack_message(open_body(kind), Negotiated.UNSET)
+            decoded.append((kind, op))
+            got = rendering(op)
+            if got != meaning[kind]:
+                ck.violation({'clause': 'C19-open-capability-not-rendered-as-its-code-says', 'message': kind, 'after': h[max(0, step - 2):step]},
+                             f'C19-open-capability-not-rendered-as-its-code-says: OPEN {kind} after {h[:step]} renders {got}, its bytes say {meaning[kind]}',
+                             {'open_history': h, 'step': step, 'message': kind})
+        for i, (kind, op) in enumerate(decoded):
+            got = rendering(op)
+            if got != meaning[kind]:
+                ck.violation({'clause': 'C19-decoded-open-altered-by-later-decoding', 'message': kind, 'later': h[i + 1:][:2]},
+                             f'C19-decoded-open-altered-by-later-decoding: OPEN {kind} (step {i} of {h}) renders {got} at the end of the history, its bytes say {meaning[kind]}',
+                             {'open_history': h, 'step': i, 'message': kind, 'at_end': True})
+        ck.count(['open'] + h, nontrivial=len(h) >= 2)
+        n += 1
+    ck.notes.append(f'ExaOpenHist: {n} histories of OPEN messages replayed into Open.unpack_message, every capability rendered at once and again at the end')
+
+
 def run(tier: str) -> int:
     ck = Check('C19', tier, 'model_checking')
     ck.cov['rule'] = (
@@ -131,6 +194,7 @@ def run(tier: str) -> int:
     ck.cov['exhaustive'] = len(hists) <= limit
     if len(hists) > limit:
         hists = rnd.sample(hists, limit)
+    open_histories(ck, tier)
     conc = concrete(ck)
     # oracle 2: every distinct (session, bytes) decoded alone in a fresh interpreter (the iBGP pair for aggr2, eBGP for the others)
     fresh = {}
@@ -177,6 +241,21 @@ def run(tier: str) -> int:
 def replay(path: str) -> int:
     case = json.load(open(path))
     c = case['case']
+    if 'open_history' in c:
+        from exabgp.bgp.message.open import Open
+        from exabgp.bgp.message.open.capability.negotiated import Negotiated
+
+        # Meaning of ExaOpenHist for the kinds involved (code -> variant is the whole of it)
+        variant = {2: 'RFC', 68: 'RFC', 128: 'Cisco', 131: 'Cisco'}
+        decoded = [Open.unpack_message(open_body(k), Negotiated.UNSET) for k in (c['open_history'] if c.get('at_end') else c['open_history'][: c['step'] + 1])]
+        got = rendering(decoded[c['step']])
+        want = sorted([code, variant[code]] for code, _ in got)
+        print('OPEN', c['message'], 'in', c['open_history'], 'renders', got, '; its bytes say', want)
+        if got != want:
+            print(f'VIOLATION property=C19 replay={path}')
+            return 1
+        print('replay: property held on this case')
+        return 0
     ck = Check('C19', 'quick', 'model_checking')
     conc = concrete(ck)
     h = [tuple(x) for x in c['history']]
